@@ -27,7 +27,7 @@ def generate(rng, tier='quick', **kw):
                      'ok': (rng.random() < 0.8)} for _ in range(depth + 1)]
   if comb in ('ContinueWith', 'Map'):
     scn['src'] = {'ok': rng.random() < 0.6, 'pre': rng.random() < 0.4, 'at': 0.01}
-    scn['fn'] = rng.choice(['value', 'raise', 'nested', 'raise_timeout'])
+    scn['fn'] = rng.choice(['value', 'raise', 'nested', 'raise_timeout', 'nested_done', 'nested_failed'])
     scn['on_hub'] = rng.random() < 0.5
   return scn
 
@@ -222,9 +222,15 @@ def run(scn):
       # what a bounded wait inside the continuation raises: gevent.Timeout is
       # an exception, but not a subclass of Exception
       raise gevent.Timeout(0.01)
-    if scn['fn'] == 'nested':
+    if scn['fn'] in ('nested', 'nested_done', 'nested_failed'):
       return inner
     return ('fn', 1)
+  # the result the continuation returns may itself be complete already
+  if scn['fn'] == 'nested_done':
+    inner.set(('inner', 1))
+  elif scn['fn'] == 'nested_failed':
+    inner.set_exception(Err('inner'))
+    REC.probe('continuation_returns_failed_result')
   if src_spec['pre']:
     complete(src, src_spec['ok'], 's')
   if comb == 'ContinueWith':
@@ -234,7 +240,8 @@ def run(scn):
   st = watch(res, comb)
   if not src_spec['pre']:
     loop.schedule(src_spec['at'], complete, src, src_spec['ok'], 's', kind='async.fire')
-  loop.schedule(0.05, inner.set, ('inner', 1), kind='async.fire')
+  if not inner.ready():
+    loop.schedule(0.05, inner.set, ('inner', 1), kind='async.fire')
   loop.on_advance = lambda: check_stable(st, comb)
   gevent.sleep(0.3)
   loop.on_advance = None
@@ -249,7 +256,8 @@ def run(scn):
       ok = cur is not None and cur[0] == 'exc' and isinstance(cur[1], Err)
     elif scn['fn'] == 'raise_timeout':
       ok = cur is not None and cur[0] == 'exc' and isinstance(cur[1], gevent.Timeout)
-    elif scn['fn'] == 'nested':
+    elif scn['fn'] in ('nested', 'nested_done', 'nested_failed'):
+      # ContinueWith captures what the continuation returned: the result object itself
       ok = cur is not None and cur[0] == 'val' and cur[1] is inner
     else:
       ok = cur is not None and cur[0] == 'val' and cur[1] == ('fn', 1)
@@ -263,8 +271,10 @@ def run(scn):
         ok = cur is not None and cur[0] == 'exc' and isinstance(cur[1], Err) and cur[1].args[0] == 'fn'
       elif scn['fn'] == 'raise_timeout':
         ok = cur is not None and cur[0] == 'exc' and isinstance(cur[1], gevent.Timeout)
-      elif scn['fn'] == 'nested':
+      elif scn['fn'] in ('nested', 'nested_done'):
         ok = cur is not None and cur[0] == 'val' and cur[1] == ('inner', 1)
+      elif scn['fn'] == 'nested_failed':
+        ok = cur is not None and cur[0] == 'exc' and isinstance(cur[1], Err) and cur[1].args[0] == 'inner'
       else:
         ok = cur is not None and cur[0] == 'val' and cur[1] == ('fn', 1)
     else:
